@@ -4,10 +4,15 @@
 //!               ground-truth traits (`Lin`, `Mat`) that build / read values strictly through
 //!               *named public fields* (the specification side of every harness).
 //! * `c16`     - generic harness bodies for layout / views / indexing / conversions.
+//! * `c19`     - harness bodies for `cast()` against the per-component `NumCast::from` oracle.
 //! * `tok`     - in-memory token `Serializer` / `Deserializer` for C20 (no formatting code runs).
 //! * `c20`     - serde harness bodies.
 //! * `gen_*.rs`- instantiation tables written by /verif/kanidrv.py at run time
-//!               (swizzle accessors, cast pairs, type x element tables).
+//!               (swizzle accessors, cast pairs, type x element tables); git-ignored.
+//!
+//! Vacuity: every generated `#[kani::proof]` ends in `kani::cover!(true, "end_reached")`, the bodies
+//! put covers into their data-dependent branches, and the driver accepts a harness only if all of
+//! them are SATISFIED (out-of-range harnesses: `oob_pre` SATISFIED and `oob_post` unreachable).
 //!
 //! Every `#[kani::proof]` draws all its inputs from `kani::any()`, so Kani's concrete playback
 //! (`cargo kani playback`) can re-execute the *same* function natively on a counterexample;
